@@ -548,3 +548,59 @@ Proof. unfold gen_guard_crps_method.
   destruct (String.eqb_spec meth "ecdf") as [->|N1]; [cbn; tauto|].
   destruct (String.eqb_spec meth "fair") as [->|N2]; [cbn; tauto|].
   cbn. split; [discriminate | intros [?|?]; contradiction]. Qed.
+
+(* ---------------------------------------------------------------------------------------------- *)
+(* from cases to labelled arrays: thresholds given as scalars or as arrays (per-case thresholds)     *)
+(* ---------------------------------------------------------------------------------------------- *)
+(* an array that does not vary along the member dimension (every array without that dimension) *)
+Definition indep (t : larr) (m : dim) : Prop := forall e i, lget t (upd e m i) = lget t e.
+
+Lemma flat_index_upd dims e m i : mem m (map fst dims) = false -> flat_index dims (upd e m i) = flat_index dims e.
+Proof.
+  induction dims as [|[d n] dims IH]; intro H; [reflexivity|].
+  cbn [map fst mem existsb] in H. apply orb_false_iff in H. destruct H as [H1 H2].
+  assert (E : String.eqb d m = false) by (rewrite String.eqb_sym; exact H1).
+  cbn [flat_index]. rewrite (IH H2). unfold upd. rewrite E. reflexivity.
+Qed.
+Lemma of_flat_indep dims data m : mem m (map fst dims) = false -> indep (of_flat dims data) m.
+Proof. intros H e i. cbn [of_flat lget]. rewrite (flat_index_upd dims e m i H). reflexivity. Qed.
+
+Lemma members_lzip g f t m e : mem m (ldims f) = true -> indep t m ->
+  members (lzip g f t) m e = map (fun x => g x (lget t e)) (members f m e).
+Proof.
+  intros Hm Ht. unfold members. cbn [lzip lsize lget]. rewrite Hm, map_map.
+  apply map_ext. intro i. rewrite (Ht e i). reflexivity.
+Qed.
+Lemma members_lzip3 g f a b m e : mem m (ldims f) = true -> indep a m -> indep b m ->
+  members (lzip3 g f a b) m e = map (fun x => g x (lget a e) (lget b e)) (members f m e).
+Proof.
+  intros Hm Ha Hb. unfold members. cbn [lzip3 lsize lget]. rewrite Hm, map_map.
+  apply map_ext. intro i. rewrite (Ha e i), (Hb e i). reflexivity.
+Qed.
+
+(* the per-case arrays the public tail / interval functions average are, cell by cell, the tw cases at that cell's thresholds *)
+Theorem array_tail_is_case meth tail f o t m e : mem m (ldims f) = true -> indep t m ->
+  lget (case_arr (lzip (gen_chain_tail tail) f t) (lzip (gen_chain_tail tail) o t) m (crps_case meth)) e
+  = tw_tail_case meth tail (members f m e) (lget o e) (lget t e).
+Proof. intros Hm Ht. cbn [case_arr lget]. rewrite (members_lzip _ f t m e Hm Ht). reflexivity. Qed.
+Theorem array_interval_is_case meth f o lo hi m e : mem m (ldims f) = true -> indep lo m -> indep hi m ->
+  lget (case_arr (lzip3 gen_chain_interval f lo hi) (lzip3 gen_chain_interval o lo hi) m (crps_case meth)) e
+  = tw_interval_case meth (members f m e) (lget o e) (lget lo e) (lget hi e).
+Proof. intros Hm Hl Hh. cbn [case_arr lget]. rewrite (members_lzip3 _ f lo hi m e Hm Hl Hh). reflexivity. Qed.
+
+(* hence, at every cell with finite thresholds a <= b: lower tail + interval + upper tail = unweighted, for threshold arrays
+   of any shape (scalars are 0-d arrays) *)
+Theorem array_parts_add_up meth f o lo hi m e a b :
+  meth_ok meth -> mem m (ldims f) = true -> indep lo m -> indep hi m ->
+  lget lo e = XFin a -> lget hi e = XFin b -> a <= b ->
+  noinf (members f m e) -> xisinf (lget o e) = false ->
+  xadd (xadd (lget (case_arr (lzip (gen_chain_tail "lower") f lo) (lzip (gen_chain_tail "lower") o lo) m (crps_case meth)) e)
+             (lget (case_arr (lzip3 gen_chain_interval f lo hi) (lzip3 gen_chain_interval o lo hi) m (crps_case meth)) e))
+       (lget (case_arr (lzip (gen_chain_tail "upper") f hi) (lzip (gen_chain_tail "upper") o hi) m (crps_case meth)) e)
+  =x= lget (case_arr f o m (crps_case meth)) e.
+Proof.
+  intros Hmeth Hm Hl Hh Ea Eb Hab Hn Ho.
+  rewrite (array_tail_is_case meth "lower" f o lo m e Hm Hl), (array_tail_is_case meth "upper" f o hi m e Hm Hh),
+          (array_interval_is_case meth f o lo hi m e Hm Hl Hh), Ea, Eb.
+  cbn [case_arr lget]. apply tw_model_split3; auto.
+Qed.
